@@ -698,6 +698,8 @@ class RandomVariables(CollectionsSequence, Immutable):
         """
         if any(item not in self.names for item in inds):
             raise KeyError("Cannot join non-existing random variable")
+        if len(inds) == 0:
+            return self, {}
         joined_rvs = self[inds]
         assert isinstance(joined_rvs, RandomVariables)
         means, M, names = joined_rvs._calc_covariance_matrix()
